@@ -1,9 +1,12 @@
 import PysnarkModel.Driver.Proto
+import PysnarkModel.Driver.ProtoLC
 open Pysnark Pysnark.Proto
 
 def handle (line : String) : String :=
   match line.splitOn "|" with
   | "P" :: rest => handleProg rest
+  | "E" :: rest => ProtoLC.handleExpr rest
+  | "I" :: rest => ProtoLC.handleInv rest
   | _ => "bad-line"
 
 partial def loop (h : IO.FS.Stream) (out : IO.FS.Stream) : IO Unit := do
